@@ -171,7 +171,12 @@ def gen_cfg(rng, prop, tier, allow_big=True):
         cfg["excs"] = list(EXC_ALL)
         cfg["obs"] = rng.choice((1, 1, 1, 2, 3, 0))  # 0: only at the end
     elif prop == "C02":
-        cfg["profile"] = "none"
+        # mostly fault-free histories; in some runs a hook aborts an *earlier* call (a faulted call itself is
+        # not judged here, C03/C16 do that) - whatever it leaves behind, later calls must still do exactly
+        # what is specified and be refused only if they must
+        cfg["profile"] = wchoice(rng, (("none", 70), ("once", 30)))
+        cfg["hooks"] = list(ALL_HOOKS)
+        cfg["excs"] = list(EXC_EXCEPTION)
     elif prop == "C03":
         cfg["profile"] = wchoice(rng, (("none", 15), ("once", 50), ("multi", 15), ("persist", 20)))
         cfg["hooks"] = list(PRE_HOOKS)
@@ -778,8 +783,14 @@ def run(cfg, ops=None, rng=None, extra=None, pre_gen=None, handle=None):
             exp = expect_of(model, op)
             pre = model.snapshot()
             sig_shape = "deep" if cfg.get("deep") else shape_sig(model, op_marks(op))
+            run_op = op
+            if op.get("f") and op["f"].get("act"):
+                safe = [a for a in op["f"]["act"] if act_safe(model, op, a, exp)]
+                if len(safe) != len(op["f"]["act"]):
+                    run_op = dict(op, f=dict(op["f"], act=safe))
+                    res.bump("hook_actions_dropped_as_unsafe_here")
             try:
-                status, exc = exec_op(world, op)
+                status, exc = exec_op(world, run_op)
             except Watchdog as wd:
                 # no call on a forest of a dozen nodes takes this long: the call does not terminate
                 raise Violation(
@@ -898,6 +909,32 @@ def run(cfg, ops=None, rng=None, extra=None, pre_gen=None, handle=None):
     res.digest = h.hexdigest()
     res.bump("runs")
     return res
+
+
+def act_safe(model, op, act, exp):
+    """Is a tree-changing hook action still inside the envelope it was generated for?  (Evaluated again at
+    execution time: a shrunk history, or the same history on another version of the library, reaches the
+    operation in another state, and a hook that re-parents a node at the wrong moment builds a cycle all by
+    itself - behind the back of a loop check that has already been made - in any implementation.)"""
+    if len(act) < 3 or act[2] is None:
+        return True  # detaching a node can never close a cycle
+    k, x, y = act
+    n_nodes = len(model)
+    if not (isinstance(x, int) and isinstance(y, int) and x < n_nodes and y < n_nodes):
+        return False
+    busy = set()
+    for i in [op.get("n"), op.get("p")] + (op["xs"] if isinstance(op.get("xs"), list) else []):
+        if isinstance(i, int) and i < n_nodes:
+            busy.add(model.root(i))
+    if model.root(y) not in busy and model.root(x) != model.root(y):
+        return True
+    xs = op.get("xs")
+    if op["op"] == "children" and isinstance(xs, list) and len(xs) >= 2 and y == xs[-1] and isinstance(op.get("n"), int) and op["n"] < n_nodes:
+        r = model.root(op["n"])
+        if x == r and r != op["n"] and model.parent[y] is None and y != r:
+            first = [i for i, ev in enumerate(exp.trace) if ev[0] in PARENT_HOOKS and ev[1] == y]
+            return bool(first) and k < first[0]
+    return False
 
 
 def stable_hash(obj):
